@@ -830,6 +830,16 @@ func (c *Conn) handleReturn(ctx context.Context, ret rpccp.Return, releaseRet ca
 		releaseRet()
 		return errorf("incoming return: question %d does not exist", qid)
 	}
+	if ret.ReleaseParamCaps() && len(q.paramCaps) > 0 {
+		// The remote vat dropped the references to the capabilities we
+		// sent as parameters.
+		rl, err := c.releaseExports(q.paramCaps)
+		if err != nil {
+			c.report(annotate(err).errorf("incoming return: release param caps"))
+		}
+		defer rl.release() // after c.mu is released
+	}
+	q.paramCaps = nil
 	canceled := q.flags&finished != 0
 	q.flags |= finished
 	if canceled {
